@@ -1,9 +1,9 @@
 SPECIFICATION Spec
 CONSTANTS
-  Scripts <- QuickScripts
-  Subs = {"ok", "crash", "mathy", "mathmut"}
-  MaxLen = 2
-  ClearResets <- PinnedClearResets
+  Scripts = {"plain", "tifa_types"}
+  Subs = {"ok", "attrassign", "attrlit", "methodcall"}
+  MaxLen = 3
+  ClearResets <- SharedTables
   Writes <- W
   Reads <- R
   SubWrites <- SW
